@@ -145,16 +145,7 @@ def check_input(acc, sch, w, mod, mon, tname, endian, fam, desc, data, cost, wit
         acc.violation(PROP, 'accepted-message-encode-raises:%s' % type(e).__name__,
                       witness(error='%s: %s' % (type(e).__name__, e), value=C.jsonable(val)))
         return
-    try:
-        m2 = cls()
-        n2 = m2.decode(e1, endian)
-        val2 = pyrt.read(m2, sch, tname, [])
-        e2 = m2.encode(endian)
-    except Exception as e:  # noqa
-        acc.violation(PROP, 'fixpoint-raises:%s' % type(e).__name__,
-                      witness(error='%s: %s' % (type(e).__name__, e), reencoded=C.hexs(e1)))
-        return
-    if (n2 != len(e1) or not _same(val2, val) or e2 != e1) and V.greedy_path(sch, tname):
+    if V.greedy_path(sch, tname):
         # documented exception (see C02): a greedy tail that does not end on the message's alignment boundary cannot
         # be told from its trailing padding. The fixpoint is only demanded when the decoded value's tail ends aligned.
         try:
@@ -164,6 +155,15 @@ def check_input(acc, sch, w, mod, mon, tname, endian, fam, desc, data, cost, wit
                 return
         except Exception:  # noqa - value outside the reference domain: fall through to the verdict
             pass
+    try:
+        m2 = cls()
+        n2 = m2.decode(e1, endian)
+        val2 = pyrt.read(m2, sch, tname, [])
+        e2 = m2.encode(endian)
+    except Exception as e:  # noqa
+        acc.violation(PROP, 'fixpoint-raises:%s' % type(e).__name__,
+                      witness(error='%s: %s' % (type(e).__name__, e), reencoded=C.hexs(e1)))
+        return
     if n2 != len(e1) or not _same(val2, val) or e2 != e1:
         acc.violation(PROP, 'fixpoint-differs', witness(reencoded=C.hexs(e1), again=C.hexs(e2), consumed=n2,
                                                         value=C.jsonable(val), value2=C.jsonable(val2)))
